@@ -893,8 +893,20 @@ pub fn c14_e2e(bin: &str, seed: u64, sessions: u64) -> E2eResult {
                         continue;
                     }
                 };
-                let n_a = 1 + (i % 3) as usize;
+                // every fourth session: one stalled multi-part payment with 40 parts waiting on its
+                // timer (a global cap on concurrently held hooks would starve other hashes)
+                let many = i % 4 == 3;
+                let n_a = if many { 0 } else { 1 + (i % 3) as usize };
                 let mut a_ids = vec![];
+                if many {
+                    let a = new_invoice(&mut rng, Some(50_000_000), Hints::None);
+                    for k in 0..40u64 {
+                        let id = format!("m{k}");
+                        s.send_doc(&hook(&id, tramp_request(&a, 1000 + k, 1_000_000, 50_250_000, height + 1100, height)), 0);
+                        a_ids.push(id);
+                    }
+                    s.pump_for(Duration::from_millis(150));
+                }
                 for k in 0..n_a {
                     let a = new_invoice(&mut rng, Some(1_000_000), Hints::None);
                     s.stuck.push((hex::encode(a.hash), at));
@@ -922,7 +934,7 @@ pub fn c14_e2e(bin: &str, seed: u64, sessions: u64) -> E2eResult {
                 let a_answered: Vec<&String> = a_ids.iter().filter(|id| s.reply(id).is_some()).collect();
                 let mut g = acc.lock().unwrap();
                 g.e("R14a-e2e", 1);
-                g.class(format!("A stuck in {at} x{n_a}"));
+                g.class(if many { "A = 40 parts waiting on the MPP timer".to_string() } else { format!("A stuck in {at} x{n_a}") });
                 if !ok || kind.as_deref() != Some("resolve") {
                     g.v(&format!("R14a|e2e-other-hash-blocked|{at}"), format!("{n_a} payment(s) stuck in {at}; payment B for another hash answered {:?} after {el:?} although a later plain forward was answered", s.reply("b").map(|r| r["result"].to_string())));
                 }
@@ -1025,4 +1037,103 @@ pub fn c20_e2e(bin: &str, seed: u64, sessions: u64, long_sessions: u64) -> E2eRe
     });
     let a = acc.into_inner().unwrap();
     E2eResult { coverage: json!({"sessions": sessions, "poll_sessions_63s": long_sessions, "classes": a.classes, "samples": a.samples}), violations: a.viol, evals: a.evals, inconclusive: a.inconclusive }
+}
+
+// ------------------------------------------------------------------ C02 / C05 E2E: slow pay, connection lost after pay was accepted
+
+/// `slow`: the pay command runs for `secs` seconds without any part, then completes. While it
+/// runs the HTLC must stay held (R02 on the node's own knowledge: it has not answered pay).
+/// `drop`: the RPC connection dies right after lightningd accepted pay (the command has ended,
+/// one part is pending and completes when waited on): the plugin must not issue a second pay
+/// (R05) and must settle with the preimage.
+pub fn pay_transport_sessions(bin: &str, seed: u64, slow_secs: &[u64], drops: u64) -> E2eResult {
+    let acc = Mutex::new(Acc::new());
+    let mut items: Vec<(bool, u64)> = slow_secs.iter().map(|s| (true, *s)).collect();
+    for k in 0..drops {
+        items.push((false, k));
+    }
+    let next = std::sync::atomic::AtomicU64::new(0);
+    std::thread::scope(|sc| {
+        for _ in 0..items.len().min(8).max(1) {
+            sc.spawn(|| loop {
+                let i = next.fetch_add(1, std::sync::atomic::Ordering::Relaxed) as usize;
+                if i >= items.len() {
+                    break;
+                }
+                let (slow, arg) = items[i];
+                let mut rng = Rng::new(mix(seed, 0x5107 + i as u64));
+                let height = 4000u32;
+                let mut s = match Session::start(bin, &json!({"trampoline-payment-timeout": 120}), false, height, None) {
+                    Ok((Some(s), _)) => s,
+                    _ => {
+                        acc.lock().unwrap().inconclusive.push("plugin did not start".into());
+                        continue;
+                    }
+                };
+                let inv = new_invoice(&mut rng, Some(1_000_000), Hints::None);
+                let hx = hex::encode(inv.hash);
+                s.preimages.insert(hx.clone(), inv.preimage);
+                s.hashes = vec![hx.clone()];
+                s.stuck.push((hx.clone(), if slow { "pay-slow" } else { "pay-drop" }));
+                s.send_doc(&hook("x", tramp_request(&inv, 1, 1_005_000, 1_005_000, height + 1100, height)), 0);
+                if slow {
+                    // keep pay running; the HTLC must not be answered meanwhile
+                    s.pump_until(|s| !s.slow_pays.is_empty() || s.out_eof, Duration::from_secs(10));
+                    let t0 = Instant::now();
+                    let mut early: Option<Value> = None;
+                    while t0.elapsed() < Duration::from_secs(arg) {
+                        s.pump_for(Duration::from_millis(200));
+                        if let Some(r) = s.reply("x") {
+                            early = Some(r.clone());
+                            break;
+                        }
+                        if s.out_eof {
+                            break;
+                        }
+                    }
+                    let mut g = acc.lock().unwrap();
+                    g.e("R02-e2e", 1);
+                    g.class(format!("pay running for {arg}s"));
+                    if let Some(r) = early {
+                        g.v("R02|e2e-answered-while-pay-running", format!("pay had been running for {:?} (of {arg} s) with no answer from lightningd when the HTLC was answered {}", t0.elapsed(), r["result"]));
+                    }
+                    drop(g);
+                    s.finish_slow_pays();
+                    let wres = s.wait_or_ping(|s| s.reply("x").is_some(), Duration::from_secs(10));
+                    let mut g = acc.lock().unwrap();
+                    let kind = s.reply("x").and_then(result_of).map(|x| x.0);
+                    if wres == Wait::Hung || (wres == Wait::Done && kind.as_deref() != Some("resolve") && g.viol.is_empty()) {
+                        g.v("R02|e2e-slow-pay-not-settled", format!("pay completed after {arg} s; HTLC answered {:?}", s.reply("x").map(|r| r["result"].to_string())));
+                    }
+                    if g.samples.len() < 2 {
+                        g.samples.push(json!({"kind": "slow pay", "seconds": arg, "answer": s.reply("x").map(|r| r["result"].clone())}));
+                    }
+                } else {
+                    let wres = s.wait_or_ping(|s| s.reply("x").is_some(), Duration::from_secs(15));
+                    let mut g = acc.lock().unwrap();
+                    g.e("R05-e2e", 1);
+                    g.class("connection lost after pay accepted".into());
+                    let pays = s.pays_seen.len();
+                    if pays > 1 {
+                        g.v("R05|e2e-pay-reissued-after-transport-error", format!("{pays} pay commands were issued for one attempt: the first had been accepted and its part was still pending"));
+                    }
+                    let kind = s.reply("x").and_then(result_of).map(|x| x.0);
+                    if wres == Wait::TooSlow {
+                        g.inconclusive.push("session too slow to judge".into());
+                    } else if kind.as_deref() != Some("resolve") && pays <= 1 {
+                        g.v("R02|e2e-not-settled-after-transport-error", format!("the accepted payment completed but the HTLC was answered {:?}", s.reply("x").map(|r| r["result"].to_string())));
+                    }
+                    for (sig, d) in std::mem::take(&mut s.node_violations) {
+                        g.v(&sig, d);
+                    }
+                    if g.samples.len() < 3 {
+                        g.samples.push(json!({"kind": "connection dropped after pay accepted", "pays_seen": pays, "answer": s.reply("x").map(|r| r["result"].clone())}));
+                    }
+                }
+                s.finish();
+            });
+        }
+    });
+    let a = acc.into_inner().unwrap();
+    E2eResult { coverage: json!({"sessions": items.len(), "classes": a.classes, "samples": a.samples}), violations: a.viol, evals: a.evals, inconclusive: a.inconclusive }
 }
